@@ -193,6 +193,22 @@ func (v Val) get(k string) (Val, bool) {
 	return Val{}, false
 }
 
+// getPath resolves a dotted property path through nested maps
+func (v Val) getPath(path string) (Val, bool) {
+	cur := v
+	for _, p := range strings.Split(path, ".") {
+		if cur.K != kMap {
+			return Val{}, false
+		}
+		nx, ok := cur.get(p)
+		if !ok {
+			return Val{}, false
+		}
+		cur = nx
+	}
+	return cur, true
+}
+
 // ---------------------------------------------------------------- compact Gallina
 
 // pB prints a byte string as `(B n [w;...]%uint63)`, 7 bytes per primitive int.
